@@ -117,6 +117,20 @@ func c01Forms() []c01Form {
 		{"delete-inline", func(db *gorm.DB, x, y, z int) (*gorm.Statement, []interface{}) {
 			return db.Table("t").Delete(&Item{}, "a = ? OR b IN (?)", x, []int{y, z}).Statement, []interface{}{x, y, z}
 		}},
+		{"relation-join-on-values", func(db *gorm.DB, x, y, z int) (*gorm.Statement, []interface{}) {
+			var out []Holder
+			st := db.Model(&Holder{}).Select("holders.*, ? AS k", x).Joins("Doc", db.Where("rank > ? AND title <> ?", y, "t")).Where("holders.name = ?", "n").Find(&out).Statement
+			return st, []interface{}{x, y, "t", "n"}
+		}},
+		{"two-relation-joins", func(db *gorm.DB, x, y, z int) (*gorm.Statement, []interface{}) {
+			var out []Holder
+			st := db.Model(&Holder{}).Joins("Doc", db.Where("rank > ?", x)).Where("holders.id IN ?", []int{y, z}).Find(&out).Statement
+			return st, []interface{}{x, y, z}
+		}},
+		{"empty-bytes", func(db *gorm.DB, x, y, z int) (*gorm.Statement, []interface{}) {
+			e := []byte{}
+			return find(db.Table("t").Where("a = ? AND b = ?", e, x)), []interface{}{e, x}
+		}},
 		{"count-pluck", func(db *gorm.DB, x, y, z int) (*gorm.Statement, []interface{}) {
 			var n int64
 			return db.Table("t").Where("a = ?", x).Where("b <> ?", y).Count(&n).Statement, []interface{}{x, y}
